@@ -14,6 +14,7 @@ fn main() {
     let argv: Vec<String> = std::env::args().collect();
     let args = Args::parse(&argv);
     util::set_quarantine(&args.quarantine);
+    util::set_repo_path(&args.repo);
     util::install_panic_hook();
     if args.prop != "probe" {
         util::silence_stderr();
